@@ -7,6 +7,10 @@
  *   controller (thread 1):  S start (only when the HAL state is Armed, as acquire_start requires)
  *                           X stop      T execute_trigger      e / d  set with frame_start.enable = 1 / 0
  *                           p pause (a scheduling point and nothing else)
+ *                           b set REJECTED by the device: the properties in force (camera_get) with binning = 3
+ *                             (not a power of two: simcam_set returns Device_Err before touching anything; the HAL's
+ *                             camera_set then stops the camera if it is Running and stores AwaitingConfiguration,
+ *                             from which S is refused until a successful set e / d re-arms the camera)
  *   caller     (thread 2):  G get_frame (not *entered* while the controller is inside stop: see notes.md)
  *                           W wait until the HAL state is Running (or the controller has finished)
  *
@@ -121,6 +125,19 @@ ctl_main(void* arg)
             case 'd': {
                 struct CameraProperties p = base_props(*o == 'e');
                 rc = camera_set(cam, &p);
+            } break;
+            case 'b': {
+                /* a set the device rejects; on a Running camera the HAL performs a full camera_stop inside it */
+                struct CameraProperties p;
+                memset(&p, 0, sizeof p);
+                if (camera_get(cam, &p) != Device_Ok) {
+                    printf("FATAL camera_get\n");
+                    _exit(4);
+                }
+                p.binning = 3;
+                g_stopping = 1;
+                rc = camera_set(cam, &p);
+                g_stopping = 0;
             } break;
             default:
                 printf("BADOP %c\n", *o);
